@@ -1417,7 +1417,7 @@ def toctou_scenarios(tables, lt, lc, pt, pc):
     return out
 
 
-def concurrent_scenarios(tables, lt, lc, pt, pc, ot, oc):
+def concurrent_scenarios(tables, lt, lc, pt, pc, ot, oc, dense=True):
     """another cache object stores table `ot` under checksum `oc` in a directory of ours while we connect:
     its open / two writes / (rename) / close are interleaved with our recorded steps at every position"""
     out = []
@@ -1426,6 +1426,8 @@ def concurrent_scenarios(tables, lt, lc, pt, pc, ot, oc):
     check = ['connect', ot, oc, pt, pc] if okind == 'log' else ['connect', lt, lc, ot, oc]
     for n in range(0, 17):
         for pat, sched in (('burst', {n: 4}), ('split', {n: 3, n + 1: 2}), ('spread', {n: 1, n + 1: 1, n + 2: 1, n + 3: 2})):
+            if not dense and pat != 'split' and n % 2:
+                continue
             for (ro, rw, od) in (('none', 'A', 'A'), ('B', 'A', 'A'), ('B', 'A', 'B')):
                 if od == 'B' and pat != 'split':
                     continue
@@ -1944,7 +1946,7 @@ def main(tier, seed, replay=None):
     scs += crash_everywhere_scenarios(base, 0, LC, 1, PC)
     scs += toctou_scenarios(base, 0, LC, 1, PC)
     third = base + [all_types_table('log'), all_types_table('param')]
-    scs += concurrent_scenarios(third, 0, LC, 1, PC, 2, 0x0BADF00D)
+    scs += concurrent_scenarios(third, 0, LC, 1, PC, 2, 0x0BADF00D, dense=not quick)
     if not quick:
         scs += concurrent_scenarios(third, 0, LC, 1, PC, 3, 0x0BADF00D)
     scs += openfail_scenarios(base, 0, LC, 1, PC)
